@@ -89,4 +89,6 @@ def configs(tier):
 def run(tier, seed, only=None):
     cs = filt(configs(tier), only)
     META['bounds'] = {'dims': '1..4', 'depth': '1..4', 'outputs': '1..2', 'path classes per refinement configuration': '12 (quick) / 40 (thorough)', 'history scripts': 'load; overwrite reload; load-refine-load x2 per strategy; construction in batches and point by point'}
-    return runner.run_property('C01', cs, tier, seed, META)
+    ks = [] if only else kconfigs_for(tier, (1, 2, 3))
+    META.setdefault('functions_encoded', []).append('RuleLocal::{getParent, getStepParent, getKid, getLevel, getNode, getSupport, getNumPoints, evalRaw, evalSupport} via ir2c + CBMC: hierarchical-basis property of the 1-D rules for ALL point indexes (engine K, CBMC)')
+    return runner.run_property('C01', cs, tier, seed, META, ks)
